@@ -75,7 +75,7 @@ func TestC06Affinity(t *testing.T) {
 	sub := lab.Sub("affinity", "rapid: strategy in {ip_hash, ip_hash_consistent}, pool 1..16 with a drawn stable ejected subset, a client address (IPv4, IPv6 in 4 spellings, "+
 		"IPv4-mapped, junk tokens, 1..64 arbitrary field-value bytes, empty) and 2..6 requests attributed to it by the documented rule (X-Forwarded-For single / list with the "+
 		"separator directly after the first element / X-Real-IP / RemoteAddr host) that differ in method, path, source port, peer, unrelated and lower-priority headers, later "+
-		"list members, extra header lines; 0..3 requests of other clients in between; in one case of three the backends carry in-flight counts from {0,1,99,100,101,500} that change between the requests of the group (the client's own backend included); through lb.NextBackend or lb.ServeHTTP(L1); oracle: same backend for the whole group and "+
+		"list members, extra header lines; 0..3 requests of other clients in between; before each later request of the group, one time in four, the operator re-selects the strategy (lb.SetStrategy = POST /v1/strategy: the active one again, or any other of the five and back with 0..2 requests of other clients while away - members and ejections untouched); in one case of three the backends carry in-flight counts from {0,1,99,100,101,500} that change between the requests of the group (the client's own backend included); through lb.NextBackend or lb.ServeHTTP(L1); oracle: same backend for the whole group and "+
 		"every choice is an eligible member; non-trivial = >=2 eligible backends and >=1 pair differing in an irrelevant dimension")
 	sub.NontrivialFloor(0.6)
 	for _, l := range []string{"src-xff-single", "src-xff-list", "src-x-real-ip", "src-remoteaddr", "differ-source-port", "differ-path", "differ-other-headers", "differ-carrier"} {
@@ -86,6 +86,7 @@ func TestC06Affinity(t *testing.T) {
 	sub.Floor("addr-empty", 0.03)
 	sub.Floor("ejected-present", 0.15)
 	sub.Floor("inflight-load-changing", 0.25)
+	sub.Floor("strategy-reselected-between-requests", 0.3)
 	lab.Check(t, sub, 5000, 200000, func(rt *rapid.T) {
 		strategy := rapid.SampledFrom(hashStrategies).Draw(rt, "strategy")
 		p := drawPool(rt, strategy, 16)
@@ -145,7 +146,36 @@ func TestC06Affinity(t *testing.T) {
 				setLoad(name, rapid.SampledFrom([]int{0, 0, 1, 99, 100, 101, 500}).Draw(rt, "inflight"))
 			}
 		}
+		// the operator (re)selects the strategy between two requests of the group (POST /v1/strategy): the
+		// strategy that is active already, or another one - any of the five - and back, with traffic of other
+		// clients while it is away. Members and ejections are untouched, so the eligible set is unchanged and
+		// the group's requests, all sent under the case's strategy, still belong to one backend.
+		var switches []string
 		for i, s := range group {
+			if i > 0 && viol == "" {
+				switch k := rapid.IntRange(0, 7).Draw(rt, "switch"); k {
+				case 0:
+					if err := p.setStrategy(strategy); err != nil {
+						rt.Fatalf("harness: SetStrategy(%s): %v", strategy, err)
+					}
+					switches = append(switches, fmt.Sprintf("%d:reapply", i))
+				case 1:
+					away := rapid.SampledFrom(awayStrategies(strategy)).Draw(rt, "away")
+					if err := p.setStrategy(away); err != nil {
+						rt.Fatalf("harness: SetStrategy(%s): %v", away, err)
+					}
+					for j, m := 0, rapid.IntRange(0, 2).Draw(rt, "away_traffic"); j < m; j++ {
+						oa, _ := genAddr(rt, "other")
+						os, _ := genRequestFor(rt, oa)
+						others = append(others, os)
+						p.pick(os, via) // under another strategy: outside this statement, not judged
+					}
+					if err := p.setStrategy(strategy); err != nil {
+						rt.Fatalf("harness: SetStrategy(%s): %v", strategy, err)
+					}
+					switches = append(switches, fmt.Sprintf("%d:%s-and-back", i, away))
+				}
+			}
 			if loaded && i > 0 {
 				// the load moves: the backend this client is on gets busy or idle, another one changes too
 				setLoad(picks[0], rapid.SampledFrom([]int{0, 99, 100, 101, 500}).Draw(rt, "inflight_home"))
@@ -170,8 +200,8 @@ func TestC06Affinity(t *testing.T) {
 				break
 			}
 			if name != picks[0] {
-				viol = fmt.Sprintf("requests #0 %+v and #%d %+v are both attributed to client %q but went to %s and %s (eligible set unchanged: members %v, ejected %v)",
-					group[0], i, s, addr, picks[0], name, p.names, keysOf(p.ejected))
+				viol = fmt.Sprintf("requests #0 %+v and #%d %+v are both attributed to client %q but went to %s and %s (eligible set unchanged: members %v, ejected %v; strategy re-selections before request #i: %v)",
+					group[0], i, s, addr, picks[0], name, p.names, keysOf(p.ejected), switches)
 				break
 			}
 		}
@@ -191,7 +221,10 @@ func TestC06Affinity(t *testing.T) {
 		if loaded {
 			labels = append(labels, "inflight-load-changing")
 		}
-		sub.Case(map[string]any{"strategy": strategy, "n": len(p.names), "ejected": keysOf(p.ejected), "addr": addr, "group": group, "others": len(others), "via": via},
+		if len(switches) > 0 {
+			labels = append(labels, "strategy-reselected-between-requests")
+		}
+		sub.Case(map[string]any{"strategy": strategy, "n": len(p.names), "ejected": keysOf(p.ejected), "addr": addr, "group": group, "others": len(others), "via": via, "switches": switches},
 			nEligible >= 2 && len(dims) > 0, labels...)
 		if viol != "" {
 			rt.Fatalf("%s n=%d via=%s: %s", strategy, len(p.names), via, viol)
